@@ -215,6 +215,12 @@ public class Num {
     public static Value RArccosh(Value a) { double x = q(a).dbl(); return d(Math.log(x + Math.sqrt(x * x - 1.0))); }
     public static Value RArctanh(Value a) { double x = q(a).dbl(); return d(0.5 * Math.log((1.0 + x) / (1.0 - x))); }
     public static Value RPow(Value a, Value b) { return d(Math.pow(q(a).dbl(), q(b).dbl())); }
+    /** the IEEE double nearest to the rational a, as an exact rational (what float(text) returns for a decimal text) */
+    public static Value RRoundToDouble(Value a) {
+        Q x = q(a);
+        BigDecimal b = new BigDecimal(x.n).divide(new BigDecimal(x.d), new MathContext(60));
+        return fromDouble(Double.parseDouble(b.toString())).val();
+    }
     /** is the double-precision image of the rational finite and not NaN */
     public static Value RFiniteD(Value a) { double x = q(a).dbl(); return bool(!(Double.isNaN(x) || Double.isInfinite(x))); }
 
